@@ -267,10 +267,122 @@ mut("c17_output_append", "C17", CLI,
     '        with open(opts.output, "wb") as out:\n', '        with open(opts.output, "ab") as out:\n',
     "--output appends to an existing file instead of replacing it")
 
+mut2("c19_abba_deadlock", "C19", [
+    (MAIN, "precomputed_qr_blanks: Dict[int, ModulesType] = {}\n", "precomputed_qr_blanks: Dict[int, ModulesType] = {}\n_lock_odd = __import__(\"threading\").Lock()\n_lock_even = __import__(\"threading\").Lock()\n"),
+    (MAIN, "            precomputed_qr_blanks[self.version] = copy_2d_array(self.modules)\n",
+     "            first, second = (_lock_odd, _lock_even) if self.version % 2 else (_lock_even, _lock_odd)\n            with first:\n                blank = copy_2d_array(self.modules)\n                with second:\n                    precomputed_qr_blanks[self.version] = blank\n")],
+    "two locks taken in an order that depends on the version parity: ABBA deadlock between an odd and an even version on cold caches")
+
+
+# ==========================================================================
+# BENIGN refactorings: the property still holds, the checks must stay silent
+# (written to /verif/benign, audited with --props, expected rc 0)
+# ==========================================================================
+B = []
+
+
+def ben(name, props, edits, why):
+    B.append((name, props, edits, why))
+
+
+ben("b20_atomic_write", "C20", [
+    (REL, "    if changed:\n        with open(filename, \"w\") as f:\n            for line in lines:\n                f.write(line)\n",
+     "    if changed:\n        import tempfile\n\n        fd, tmp = tempfile.mkstemp(dir=os.path.dirname(filename))\n        with os.fdopen(fd, \"w\") as f:\n            for line in lines:\n                f.write(line)\n        os.replace(tmp, filename)\n")],
+    "write to a temporary file in the same directory, then os.replace (by-passes open())")
+ben("b20_pathlib", "C20", [
+    (REL, "    with open(filename) as f:\n        lines = f.readlines()\n",
+     "    import pathlib\n\n    text = pathlib.Path(filename).read_text()\n    lines = [ln + \"\\n\" for ln in text.split(\"\\n\")]\n    lines[-1] = lines[-1][:-1]\n    if lines[-1] == \"\":\n        lines.pop()\n"),
+    (REL, "        with open(filename, \"w\") as f:\n            for line in lines:\n                f.write(line)\n",
+     "        pathlib.Path(filename).write_text(\"\".join(lines))\n")],
+    "pathlib read_text / write_text")
+ben("b20_regex_header", "C20", [
+    (REL, "        parts = re.split(r'\"([^\"]*)\"', line)\n        if len(parts) < 5:\n            continue\n",
+     "        if line.count('\"') < 4:\n            continue\n        parts = re.split(r'\"([^\"]*)\"', line)\n")],
+    "well-formedness tested by counting quotes")
+ben("b11_renderers_recompile_when_dirty_flag", "C11,C15,C16", [
+    (MAIN, "        self.data_cache = None\n        self.data_list = []\n", "        self.data_cache = None\n        self._dirty = True\n        self.data_list = []\n"),
+    (MAIN, "            self.data_list.append(util.QRData(data))\n        self.data_cache = None\n", "            self.data_list.append(util.QRData(data))\n        self.data_cache = None\n        self._dirty = True\n"),
+    (MAIN, "        self.data_cache = None\n        if self.mask_pattern is None:\n", "        self.data_cache = None\n        self._dirty = False\n        if self.mask_pattern is None:\n"),
+    (MAIN, "        if self.data_cache is None:\n            self.make()\n\n        if not self.border:\n", "        if self._dirty or self.data_cache is None:\n            self.make()\n\n        if not self.border:\n")],
+    "a separate dirty flag next to the cache")
+ben("b16_get_matrix_returns_copy", "C16,C11,C15", [
+    (MAIN, "        if not self.border:\n            return self.modules\n", "        if not self.border:\n            return [list(row) for row in self.modules]\n")],
+    "border 0 returns a copy instead of the symbol itself")
+ben("b15_one_write_per_line", "C15,C11", [
+    (MAIN, "        for r in range(-self.border, modcount + self.border, 2):\n            if tty:\n                if not invert or r < modcount + self.border - 1:\n                    out.write(\"\\x1b[48;5;232m\")  # Background black\n                out.write(\"\\x1b[38;5;255m\")  # Foreground white\n            for c in range(-self.border, modcount + self.border):\n                pos = get_module(r, c) + (get_module(r + 1, c) << 1)\n                out.write(codes[pos])\n            if tty:\n                out.write(\"\\x1b[0m\")\n            out.write(\"\\n\")\n",
+     "        for r in range(-self.border, modcount + self.border, 2):\n            line = []\n            if tty:\n                if not invert or r < modcount + self.border - 1:\n                    line.append(\"\\x1b[48;5;232m\")  # Background black\n                line.append(\"\\x1b[38;5;255m\")  # Foreground white\n            for c in range(-self.border, modcount + self.border):\n                pos = get_module(r, c) + (get_module(r + 1, c) << 1)\n                line.append(codes[pos])\n            if tty:\n                line.append(\"\\x1b[0m\")\n            line.append(\"\\n\")\n            out.write(\"\".join(line))\n")],
+    "print_ascii writes one string per text line")
+ben("b15_print_tty_bright_white", "C15", [
+    (MAIN, "        out.write(\"\\x1b[1;47m\" + (\" \" * (modcount * 2 + 4)) + \"\\x1b[0m\\n\")\n        for r in range(modcount):",
+     "        out.write(\"\\x1b[107m\" + (\" \" * (modcount * 2 + 4)) + \"\\x1b[0m\\n\")\n        for r in range(modcount):")],
+    "top frame line of print_tty uses bright-white background without bold")
+ben("b17_stdout_isatty_method", "C17", [
+    (CLI, "os.isatty(sys.stdout.fileno())", "sys.stdout.isatty()")],
+    "tty test through the stream object")
+ben("b17_output_via_pathlib", "C17", [
+    (CLI, "        with open(opts.output, \"wb\") as out:\n            img.save(out)\n",
+     "        import io\n        import pathlib\n\n        buf = io.BytesIO()\n        img.save(buf)\n        pathlib.Path(opts.output).write_bytes(buf.getvalue())\n")],
+    "--output written through pathlib")
+ben("b17_stdin_readall_loop", "C17", [
+    (CLI, "        data = sys.stdin.buffer.read()\n", "        chunks = []\n        while True:\n            chunk = sys.stdin.buffer.read(4096)\n            if not chunk:\n                break\n            chunks.append(chunk)\n        data = b\"\".join(chunks)\n")],
+    "stdin read in a loop of bounded reads")
+ben("b17_os_write_to_fd1", "C17", [
+    (CLI, "        sys.stdout.flush()\n        img.save(sys.stdout.buffer)\n",
+     "        import io\n\n        buf = io.BytesIO()\n        img.save(buf)\n        sys.stdout.flush()\n        view = memoryview(buf.getvalue())\n        while view:\n            n = os.write(sys.stdout.fileno(), view)\n            view = view[n:]\n")],
+    "image written with os.write on the stdout file descriptor (by-passes sys.stdout.buffer)")
+ben("b17_os_read_fd0", "C17", [
+    (CLI, "        data = sys.stdin.buffer.read()\n", "        chunks = []\n        while True:\n            chunk = os.read(sys.stdin.fileno(), 65536)\n            if not chunk:\n                break\n            chunks.append(chunk)\n        data = b\"\".join(chunks)\n")],
+    "stdin read with os.read on fd 0 (by-passes sys.stdin.buffer)")
+ben("b19_lock_around_blank_cache", "C19,C11", [
+    (MAIN, "precomputed_qr_blanks: Dict[int, ModulesType] = {}\n", "precomputed_qr_blanks: Dict[int, ModulesType] = {}\n_blanks_lock = __import__(\"threading\").Lock()\n"),
+    (MAIN, "            precomputed_qr_blanks[self.version] = copy_2d_array(self.modules)\n", "            with _blanks_lock:\n                precomputed_qr_blanks[self.version] = copy_2d_array(self.modules)\n")],
+    "a lock around the cache insert")
+ben("b11_blank_cache_as_tuples", "C11,C19", [
+    (MAIN, "            self.modules = copy_2d_array(precomputed_qr_blanks[self.version])\n", "            self.modules = [list(row) for row in precomputed_qr_blanks[self.version]]\n"),
+    (MAIN, "            precomputed_qr_blanks[self.version] = copy_2d_array(self.modules)\n", "            precomputed_qr_blanks[self.version] = tuple(tuple(row) for row in self.modules)\n")],
+    "cached blanks stored as immutable tuples")
+ben("b18_box_size_validated_at_assignment", "C18,C11", [
+    (MAIN, "    @property\n    def mask_pattern(self):\n        return self._mask_pattern\n",
+     "    @property\n    def box_size(self):\n        return self._box_size\n\n    @box_size.setter\n    def box_size(self, value):\n        _check_box_size(value)\n        self._box_size = int(value)\n\n    @property\n    def mask_pattern(self):\n        return self._mask_pattern\n")],
+    "box size validated as soon as it is assigned (the statement allows 'at the latest when an image is made')")
+ben("b19_svg_units_local_cache", "C19", [
+    (SVG, "        self.unit_size = self.units(self.box_size)\n", "        self.unit_size = self.units(self.box_size)\n        self._units_cache = {}\n")],
+    "harmless per-instance attribute")
+
+
+def _emit(table, outdir, only):
+    os.makedirs(outdir, exist_ok=True)
+    for name, prop, edits, why in table:
+        if only and name not in only:
+            continue
+        with tempfile.TemporaryDirectory(prefix="verif_mk_") as td:
+            subprocess.run(["git", "-C", "/repo", "worktree", "add", "--detach", "-q",
+                            td + "/w", "HEAD"], check=True)
+            try:
+                for file, old, new in edits:
+                    p = os.path.join(td, "w", file)
+                    s = open(p).read()
+                    if s.count(old) != 1:
+                        print(f"!! {name}: pattern occurs {s.count(old)} times in {file}")
+                        break
+                    open(p, "w").write(s.replace(old, new))
+                else:
+                    d = subprocess.run(["git", "-C", td + "/w", "diff"], capture_output=True,
+                                       text=True, check=True).stdout
+                    with open(os.path.join(outdir, name + ".diff"), "w") as f:
+                        f.write(f"property: {prop}\nwhy: {why}\n\n{d}")
+                    print("ok", name)
+            finally:
+                subprocess.run(["git", "-C", "/repo", "worktree", "remove", "--force",
+                                td + "/w"], check=True)
+
 
 def main():
-    os.makedirs(OUT, exist_ok=True)
     only = set(sys.argv[1:])
+    _emit(B, os.path.join(HERE, "benign"), only)
+    if only and all(n.startswith("b") and not n.startswith("c") for n in only):
+        return
+    os.makedirs(OUT, exist_ok=True)
     for name, prop, edits, why in M:
         if only and name not in only:
             continue
